@@ -5,7 +5,7 @@
 open Model
 open G1drv
 
-type aop = Add of int * int option | Rem of int * int option | Rec of bool | Upd
+type aop = Add of int * int option | Rem of int * int option | Rec of bool | Upd | Go
 
 let parse_aop s =
   let two s = match String.split_on_char 'k' s with [a; b] -> (int_of_string a, int_of_string b) | _ -> failwith ("op " ^ s) in
@@ -17,6 +17,7 @@ let parse_aop s =
   | 'R' -> let (i, k) = two rest in Rem (i, Some k)
   | 'x' -> Rec (rest = "1")
   | 'u' -> Upd
+  | 'g' -> Go
   | _ -> failwith ("op " ^ s)
 
 let rec int_of_nat = function O -> 0 | S k -> 1 + int_of_nat k
@@ -78,6 +79,7 @@ let oracle cap (progs : aop list array) (final : string list) : string option =
        | Upd -> upds := (t, s, e, payload land 1 = 1, digits cap (payload lsr 1)) :: !upds);
       last_end.(t) <- e in
     let matches tag arg o = match tag, o with
+      | _, Go -> false
       | 1, Add (d, _) -> d = arg | 2, Rem (j, _) -> j = arg | 3, Rec _ -> true | 4, Upd -> true | _ -> false in
     let err = ref None in
     List.iter (fun tok ->
@@ -142,16 +144,28 @@ let oracle cap (progs : aop list array) (final : string list) : string option =
 let mk_sys toks =
   match toks with
   | [cap; prog; d0; d1; d2] ->
-    let aprogs = Array.of_list (List.map (fun t -> List.map parse_aop (split_on ',' t)) (String.split_on_char '|' prog)) in
+    let gprogs = Array.of_list (List.map (fun t -> List.map parse_aop (split_on ',' t)) (String.split_on_char '|' prog)) in
+    let nmain = Array.map (fun l -> let rec after = function [] -> None | Go :: r -> Some (List.length r) | _ :: r -> after r in after l) gprogs in
+    let aprogs = Array.map (List.filter (fun o -> o <> Go)) gprogs in
     let nt = Array.length aprogs in
     let capi = int_of_string cap in
     let fz = function None -> None | Some k -> Some (nat_of_int k) in
     let conv = function
       | Add (d, k) -> c10_add (n_of_int d) (fz k) | Rem (j, k) -> c10_rem (nat_of_int j) (fz k)
-      | Rec p -> c10_rec p | Upd -> c10_upd in
+      | Rec p -> c10_rec p | Upd -> c10_upd | Go -> failwith "go" in
     let progs = Array.map (List.map conv) aprogs in
     let c = ref (c10_init (n_of_int capi) (n_of_u64_string d0) (n_of_u64_string d1) (n_of_u64_string d2)
                    (fun t -> let i = int_of_nat t in if i < nt then progs.(i) else [])) in
+    (* setup prefixes: run the model thread through them before the trace starts *)
+    Array.iteri (fun t nm -> match nm with
+      | None -> ()
+      | Some nm ->
+        let rec go fuel =
+          let l = snd !c (nat_of_int t) in
+          if fuel = 0 then failwith "setup does not terminate"
+          else if int_of_nat (c10_prog_len l) <= nm && int_of_n (c10_pc_tag l) = 0 then ()
+          else match c10_step1 (nat_of_int t) !c with None -> () | Some (c', _) -> c := c'; go (fuel - 1) in
+        go 10000) nmain;
     let step t =
       let rec go () =
         let tag = int_of_n (c10_pc_tag (snd !c (nat_of_int t))) in
